@@ -84,6 +84,56 @@ def gen_case(rng, cid, tier):
     return lines
 
 
+def gen_term_case(rng, cid, tier):
+    """termination shapes: terminate() must not wait for (or start) queued jobs.
+    S1 a parked worker, then enqueue() immediately followed by terminate() (terminate can get the mutex before
+       the woken worker: the worker must re-check terminate_ before it picks the job);
+    S2 a job that calls terminate() with a backlog queued behind it (the backlog is dropped);
+    S3 self-re-enqueueing jobs with an outside terminate() (the pool must come to rest, ~ThreadPool returns)."""
+    lines = [f"case t{cid}"]
+    nw = rng.choice([1, 1, 1, 2, 2, 3])
+    lines.append(f"pool {nw}" + (f" init={rng.choice([0, 1])}" if rng.random() < 0.15 else ""))
+    shape = rng.choice([1, 1, 2, 2, 3])
+    tail = rng.choice([["u"], ["u", "d"], ["u", "d", "i"], ["u", "e0", "d"], []])
+    if shape == 1:
+        lines.append("job 0" + rng.choice(["", "", " d", " ~ d"]))
+        pre = rng.choice([[], [], ["i"], ["d"], ["e0", "w"]])
+        lines.append("client " + " ".join(pre + ["e0"] * rng.choice([1, 1, 2]) + ["t"]))
+        if rng.random() < 0.4:
+            lines.append("client " + rng.choice(["u", "u d", "e0 t", "i u"]))
+        lines.append("main " + " ".join(rng.choice([["u"], ["u", "d"], ["i", "u", "d"]])))
+    elif shape == 2:
+        lines.append("job 0" + rng.choice(["", "", " d", " ~ i"]))
+        lines.append("job 1 " + rng.choice(["t", "t", "t e0", "e0 t", "t d", "t ~ e0"]))
+        backlog = ["e0"] * rng.choice([1, 2, 3])
+        who = rng.choice(["client", "main"])
+        if who == "client":
+            lines.append("client " + " ".join(rng.choice([[], ["e0"]]) + ["e1"] + backlog))
+            if tail:
+                lines.append("main " + " ".join(tail))
+        else:
+            if rng.random() < 0.5:
+                lines.append("client " + rng.choice(["u", "u d", "e0 e0"]))
+            lines.append("main " + " ".join(["e1"] + backlog + tail))
+    else:
+        lines.append("job 0 " + rng.choice(["e0", "e0", "e0 d", "d e0"]))
+        if rng.random() < 0.4:
+            lines.append("job 1 e1 e0")
+            start = rng.choice(["e1", "e0 e1"])
+        else:
+            start = rng.choice(["e0", "e0 e0"])
+        lines.append("client " + start + rng.choice(["", " t", " d t"]))
+        # an outside terminate() that is always reached (no blocking call before it): every run comes to rest
+        lines.append("client " + rng.choice(["t", "i t", "t u", "t u d"]))
+        lines.append("main " + " ".join(rng.choice([["u"], ["u", "d"], ["t", "u", "d"], ["d"]])))
+    nruns = 4 if tier == "quick" else 8
+    for _ in range(nruns):
+        stick = rng.choice([0, 0, 0, 100, 200])
+        spur = rng.choice([0, 0, 0, 1, 3])
+        lines.append(f"run seed={rng.randrange(1, 2**40)} stick={stick} spur={spur}")
+    return lines
+
+
 EXPLORE = [
     # (scenario lines, quick runs, thorough runs): systematic depth-first enumeration of all schedules
     (["pool 1", "job 0", "client w", "main e0"], 600, 6000),
@@ -101,6 +151,9 @@ EXPLORE = [
     (["pool 1", "job 0", "job 1 ~ e0", "client w", "main e1"], 400, 6000),          # the closure's destructor enqueues
     (["pool 2", "job 0", "job 1 e0 x ~ e0 d", "main e1 w d"], 320, 6000),           # fork-join with a throwing body
     (["pool 1", "job 0", "job 1 t ~ e0", "client u", "main e1 w"], 0, 6000),        # destructor enqueues after terminate
+    (["pool 1", "job 0", "client e0 t", "main u d"], 400, 6000),                   # parked worker, enqueue + terminate
+    (["pool 1", "job 0", "job 1 t", "main e1 e0 e0 u d"], 300, 6000),               # terminate() from a job, backlog behind it
+    (["pool 2", "job 0", "client e0 e0 t", "client u", "main u d"], 0, 6000),
 ]
 
 
@@ -122,7 +175,9 @@ class C10(flow.Spec):
                        "jobs / terminating the pool / throwing std::runtime_error / calling done() and idle(); closures whose destructor "
                        "enqueues a continuation or reads the observers), "
                        "0-3 client threads and the main thread issuing enqueue / loop_until_empty / loop_until_terminate / "
-                       "terminate, run under several PRNG schedules (with sticky and spurious-wake-up variants); a case is "
+                       "terminate (every sixth scenario is a termination shape: parked worker + enqueue immediately followed by "
+                       "terminate, a job calling terminate() with a backlog behind it, self-re-enqueueing jobs with an outside "
+                       "terminate), run under several PRNG schedules (with sticky and spurious-wake-up variants); a case is "
                        "non-trivial when in some run a waiter really blocked on cv_finished_ and either two workers were "
                        "busy at once or a job enqueued another job; distinct = distinct scenario + schedule lines; in "
                        "addition a fixed list of tiny scenarios is explored systematically (depth-first over all "
@@ -181,7 +236,7 @@ class C10(flow.Spec):
     def cases(self, ctx, seed, tier, round_no=0):
         rng = random.Random(seed * 1000003 + round_no * 7919 + 10)
         n = 500 if tier == "quick" else 10000
-        cs = [gen_case(rng, i, tier) for i in range(n)]
+        cs = [gen_term_case(rng, i, tier) if i % 6 == 5 else gen_case(rng, i, tier) for i in range(n)]
         if round_no == 0:
             cs += explore_cases(tier)
         return cs
